@@ -196,7 +196,10 @@ def sortedness_rules(run):
             rhs = s['args'][1] if s['k'] == 'call' else s.get('rhs')
             txt = q.render(x.owner, q.strip_casts(rhs), names=x.names)
             want = (pname,) if name == 'expires_at' else ('(sim::chrono::high_resolution_clock::now() + %s)' % pname, '(%s + sim::chrono::high_resolution_clock::now())' % pname)
-            run.check(txt in want, 'R4', 'key-is-requested-expiry', T + '::' + name, x.owner.loc(s),
+            # the same value through single-definition const locals: compare linear forms over {parameter, now()}
+            lf = q.linform(x.owner, rhs, q.const_local_subst(x.owner), names=x.names)
+            lf_want = ({pname: 1}, 0) if name == 'expires_at' else ({pname: 1, 'sim::chrono::high_resolution_clock::now()': 1}, 0)
+            run.check(txt in want or lf == lf_want, 'R4', 'key-is-requested-expiry', T + '::' + name, x.owner.loc(s),
                       'the expiry stored by %s is %s, not the requested %s: timers then fire at (and are ordered by) a different instant than the one asked for - e.g. clamping overdue deadlines to now() makes them fire in arming order instead of deadline order' % (name, txt, want[0]),
                       'stores exactly the requested expiry')
         # return value is cancel()'s count
